@@ -46,6 +46,15 @@ func classifyChan(ch ssa.Value) (kind string, ctx ssa.Value) {
 	if call, ok := v.(*ssa.Call); ok && call.Call.IsInvoke() && call.Call.Method.Name() == "Done" && isContextType(call.Call.Value.Type()) {
 		return "ctx-done", call.Call.Value
 	}
+	// a field of a small struct that a helper of the module filled in (a := s.aborts(ctx); case <-a.ctxDone): what the helper
+	// stored there, its context parameter standing for the caller's argument
+	if inner, hc, ok := chanThroughStruct(v); ok {
+		k, cx := classifyChan(inner)
+		if cx != nil {
+			cx = argOf(cx, []*ssa.Call{hc})
+		}
+		return k, cx
+	}
 	// a channel parameter of an unexported helper (readyBeforeDone(ctx.Done(), ch)): what every call site hands in
 	if p, ok := v.(*ssa.Parameter); ok {
 		if args := helperChanArgs(p); len(args) > 0 {
@@ -236,6 +245,9 @@ func fieldOfChan(ch ssa.Value) string {
 			continue
 		}
 		break
+	}
+	if inner, _, ok := chanThroughStruct(v); ok {
+		return fieldOfChan(inner)
 	}
 	if ld, ok := v.(*ssa.UnOp); ok && ld.Op == token.MUL {
 		if fa, ok := ld.X.(*ssa.FieldAddr); ok {
@@ -669,4 +681,106 @@ func canonChanField(t types.Type, field string) string {
 		}
 	}
 	return field
+}
+
+// chanThroughStruct: v reads field #k of a struct value that an in-module helper returned (a := s.aborts(ctx); a.ctxDone): the
+// value the helper stored into that field of the struct it built, in the HELPER's frame, and the call. Only when the helper
+// builds one local struct with exactly one store to the field.
+func chanThroughStruct(v ssa.Value) (ssa.Value, *ssa.Call, bool) {
+	var call *ssa.Call
+	field := -1
+	switch x := v.(type) {
+	case *ssa.Field:
+		if c, ok := x.X.(*ssa.Call); ok {
+			call, field = c, x.Field
+		} else if ld, ok := x.X.(*ssa.UnOp); ok && ld.Op == token.MUL {
+			if al, ok := ld.X.(*ssa.Alloc); ok {
+				if sts := storesTo(al); len(sts) == 1 {
+					if c, ok := sts[0].Val.(*ssa.Call); ok {
+						call, field = c, x.Field
+					}
+				}
+			}
+		}
+	case *ssa.UnOp:
+		if x.Op != token.MUL {
+			return nil, nil, false
+		}
+		fa, ok := x.X.(*ssa.FieldAddr)
+		if !ok {
+			return nil, nil, false
+		}
+		al, ok := fa.X.(*ssa.Alloc)
+		if !ok {
+			return nil, nil, false
+		}
+		// the struct was spilled into a local: a single whole-struct store of the call's result, no field stores
+		var whole []*ssa.Store
+		for _, ref := range refsOf(al) {
+			if st, ok := ref.(*ssa.Store); ok && st.Addr == ssa.Value(al) {
+				whole = append(whole, st)
+			}
+			if fa2, ok := ref.(*ssa.FieldAddr); ok {
+				for _, r2 := range refsOf(fa2) {
+					if st, ok := r2.(*ssa.Store); ok && st.Addr == ssa.Value(fa2) {
+						return nil, nil, false
+					}
+				}
+			}
+		}
+		if len(whole) != 1 {
+			return nil, nil, false
+		}
+		c, ok := whole[0].Val.(*ssa.Call)
+		if !ok {
+			return nil, nil, false
+		}
+		call, field = c, fa.Field
+	default:
+		return nil, nil, false
+	}
+	if call == nil || field < 0 {
+		return nil, nil, false
+	}
+	h := staticCallee(&call.Call)
+	if h == nil || h.Blocks == nil || curCtx == nil || !curCtx.inModule(h) || h.Signature.Results().Len() != 1 {
+		return nil, nil, false
+	}
+	if _, isStruct := h.Signature.Results().At(0).Type().Underlying().(*types.Struct); !isStruct {
+		return nil, nil, false
+	}
+	// the struct the helper returns: a load of one local
+	var built *ssa.Alloc
+	for _, rv := range returnedBy(h, 0) {
+		ld, ok := rv.(*ssa.UnOp)
+		if !ok || ld.Op != token.MUL {
+			return nil, nil, false
+		}
+		al, ok := ld.X.(*ssa.Alloc)
+		if !ok || (built != nil && built != al) {
+			return nil, nil, false
+		}
+		built = al
+	}
+	if built == nil {
+		return nil, nil, false
+	}
+	var stored ssa.Value
+	n := 0
+	for _, ref := range refsOf(built) {
+		fa, ok := ref.(*ssa.FieldAddr)
+		if !ok || fa.Field != field {
+			continue
+		}
+		for _, r2 := range refsOf(fa) {
+			if st, ok := r2.(*ssa.Store); ok && st.Addr == ssa.Value(fa) {
+				stored = st.Val
+				n++
+			}
+		}
+	}
+	if n != 1 {
+		return nil, nil, false
+	}
+	return stored, call, true
 }
